@@ -69,6 +69,9 @@ var (
 	domE = []string{"nil", "x", bs([]byte{0x07}), bs(pat(0x10, 32)), bs(pat(0x00, 300))} // a batch entry; 300 bytes needs a 2-byte length
 
 	domSig = []string{"nil", "x", bs([]byte{0x05}), bs(pat(0x80, 32)), "valid"}
+	// a signed header additionally carries a signature made under a NON-DEFAULT signature payload provider
+	// (world.CustomPayloadProvider, the configuration dimension ManagerOptions.SignaturePayloadProvider)
+	domSigHeader = append(append([]string(nil), domSig...), "valid-custom")
 )
 
 var domTime = []time.Time{
@@ -246,7 +249,7 @@ func (s *HeaderSpec) set(f, v int) {
 
 type SignedHeaderSpec struct {
 	H      HeaderSpec
-	Sig    string // "valid" = signature by the signer option's key (ed25519 key when the option has none) over the header
+	Sig    string // "valid" = signature by the signer option's key (ed25519 key when the option has none) over the header; "valid-custom" = the same over world.CustomPayloadProvider(header)
 	Signer int
 }
 
@@ -265,7 +268,7 @@ func signedHeaderFieldName(f int) string {
 func signedHeaderDomSize(f int) int {
 	switch f {
 	case nHeaderFields:
-		return len(domSig)
+		return len(domSigHeader)
 	case nHeaderFields + 1:
 		return nSignerOpts
 	}
@@ -275,7 +278,7 @@ func signedHeaderDomSize(f int) int {
 func (s *SignedHeaderSpec) set(f, v int) {
 	switch f {
 	case nHeaderFields:
-		s.Sig = domSig[v]
+		s.Sig = domSigHeader[v]
 	case nHeaderFields + 1:
 		s.Signer = v
 	default:
@@ -287,6 +290,11 @@ func (s SignedHeaderSpec) build() *types.SignedHeader {
 	sh := &types.SignedHeader{Header: s.H.build(), Signer: signerOpt(s.Signer)}
 	if s.Sig == "valid" {
 		payload, err := types.DefaultSignaturePayloadProvider(&sh.Header)
+		if err == nil {
+			sh.Signature = signWith(s.Signer, payload)
+		}
+	} else if s.Sig == "valid-custom" {
+		payload, err := world.CustomPayloadProvider(&sh.Header)
 		if err == nil {
 			sh.Signature = signWith(s.Signer, payload)
 		}
